@@ -116,7 +116,9 @@ def use_kind(view, ref, out_d, in_d):
             return "def"
         if nm == "elements":
             return "alias"
-        return "write"
+        if nm in ("axpy",):
+            return "write"
+        return "unknown-mut"      # a non-const method of the vector that is not in the table
     if k in ("MCall", "Call", "Construct", "OpCall"):
         args = p.get("a", [])
         for idx, a in enumerate(args):
@@ -124,6 +126,8 @@ def use_kind(view, ref, out_d, in_d):
                 nm = p.get("n") or ""
                 if nm == "filter_cor":
                     return "filter"
+                if nm in ("filter_def", "filter_rhs", "filter_sol"):
+                    return "write"      # a modelled filter operation, but not the correction filter
                 pt = p.get("pt") or []
                 ty = view.fn.type(pt[idx]) if idx < len(pt) else ""
                 pn = (p.get("pn") or [None] * (idx + 1))[idx] if idx < len(p.get("pn") or []) else None
@@ -135,7 +139,7 @@ def use_kind(view, ref, out_d, in_d):
                     return "def"
                 if k == "MCall" and nm == "_apply_intern":
                     return "write"
-                return "write"
+                return "unknown-mut"  # passed by non-const reference to a callee that is not modelled
     if k == "Decl" or k == "Var":
         return "alias"
     return "write"
@@ -168,12 +172,54 @@ def check_apply(ck, f, inst, kind):
                 if view.pos(e) is None:
                     continue
                 uk = use_kind(view, r, out_d, in_d) if r.get("d") == out_d else "write"
+                if uk == "unknown-mut":
+                    continue      # reported as an unmodelled construct below (incomplete), not as a late write
                 if uk not in ("const",):
                     # only report at the statement that directly contains the use
                     par = view.parent.get(r["i"])
                     if par is not None and par.get("i") == e or n is r:
                         late.append(n)
+    # constructs that may filter / define the output without being modelled
+    unmodelled = []
+    for e in stmts_of(view):
+        n = view.byid.get(e)
+        if n is None:
+            continue
+        for r in [x for x in walk(n) if x.get("k") == "Ref" and x.get("d") == out_d]:
+            par = view.parent.get(r["i"])
+            while par is not None and par.get("k") == "Cast":
+                par = view.parent.get(par["i"])
+            if par is not None and par.get("i") == e and use_kind(view, r, out_d, in_d) == "unknown-mut":
+                unmodelled.append("%s (line %s)" % (render(n)[:70], n.get("l")))
+        if n.get("k") in ("MCall", "Call") and n.get("n") not in ("solve_il", "solve_du"):
+            for a in n.get("a", []):
+                if strip(a).get("k") == "Ref" and strip(a).get("d") in aliases:
+                    unmodelled.append("element pointer of the output passed to %s (line %s)" % (n.get("n") or n.get("callee"), n.get("l")))
+        if n.get("k") in ("MCall", "Call") and any(pcsym.this_field(view.value(a)) == "_filter" for a in n.get("a", [])):
+            unmodelled.append("the filter is handed to %s (line %s)" % (n.get("n") or n.get("callee"), n.get("l")))
+        if n.get("k") == "MCall" and pcsym.this_field(view.value(n.get("obj") or {})) == "_filter" and n.get("n") not in ("filter_cor", "filter_def"):
+            unmodelled.append("filter method %s (line %s)" % (n.get("n"), n.get("l")))
+    if any(x.get("k") == "Lambda" for x in walk(f.body)):
+        unmodelled.append("lambda in apply()")
+    emptiness = [render(x)[:60] for x in walk(f.body) if x.get("k") == "If" and any(
+        y.get("k") == "MCall" and y.get("n") in ("size", "rows", "columns", "used_elements", "empty") for y in walk(x.get("c") or {}))]
     ok = bool(filt) and not escapes and not late
+    late_unknown = False
+    for fe in filt:
+        after, _ = view.flow_from(fe)
+        for e in after:
+            n = view.byid.get(e)
+            for r in [x for x in walk(n or {}) if x.get("k") == "Ref" and x.get("d") == out_d]:
+                par = view.parent.get(r["i"])
+                if par is not None and par.get("i") == e and use_kind(view, r, out_d, in_d) == "unknown-mut":
+                    late_unknown = True
+    if ok and late_unknown:
+        ck.incomplete("E7.filter-follows", "%s: after the correction filter the output is handed to a callee that is not modelled" % inst)
+        ok = None
+    if ok is False and (unmodelled or (escapes and emptiness)) and not late:
+        ck.incomplete("E7.filter-follows", "%s: the correction filter is not found on every exit, but apply() contains a construct that is not modelled: %s" % (
+            inst, (unmodelled or ["early-out on an empty operand: " + emptiness[0]])[0]))
+        ok = None
     detail = "every normal exit is preceded by _filter.filter_cor(%s); the output is not written afterwards" % f.params[0]["n"]
     if not filt:
         detail = "apply() never calls _filter.filter_cor(%s)" % f.params[0]["n"]
@@ -181,7 +227,8 @@ def check_apply(ck, f, inst, kind):
         detail = "a normal exit of apply() is reachable without passing _filter.filter_cor(%s)" % f.params[0]["n"]
     elif late:
         detail = "the output is modified after the correction filter: %s (line %s)" % (render(late[0])[:80], late[0].get("l"))
-    ck.ob("E7.filter-follows", inst, ok, detail, f.file, f.line)
+    if ok is not None:
+        ck.ob("E7.filter-follows", inst, ok, detail, f.file, f.line)
     # (3) the first use of the output on every path defines it
     defs, others = [], []
     for e in stmts_of(view):
@@ -206,7 +253,10 @@ def check_apply(ck, f, inst, kind):
                 defs.append(e)
     before, _ = view.flow_from(None, stop=set(defs))
     early = [e for e in others if e in before]
-    ck.ob("E7.output-defined", inst, bool(defs) and not early,
+    if (not defs or early) and unmodelled:
+        ck.incomplete("E7.output-defined", "%s: no modelled definition of the output precedes its first use, but apply() contains a construct that may define it: %s" % (inst, unmodelled[0]))
+    else:
+      ck.ob("E7.output-defined", inst, bool(defs) and not early,
           "the output is defined (copy/scale/component_product/apply/solve_il from the input) before any other use on every path" if defs and not early else
           ("the output is read or updated before it is defined: %s" % render(view.byid[early[0]])[:90] if early else "no defining write of the output found"),
           f.file, f.line)
@@ -266,6 +316,10 @@ def check_sweeps(ck, f, inst, kind):
         key = "%s/%s" % (inst, name)
         inn = s.inner
         problems = []
+        flat = [inn["start"][0], inn["start"][1]] + [x for g in inn["guard"] for x in (g if isinstance(g, tuple) else (g,))]
+        if any(x is None for x in flat):
+            ck.incomplete("E2.sweep-triangular", "%s: inner loop bounds %s / %s are not expressed through row_ptr / col_ind of the matrix" % (key, inn["start"], inn["guard"]))
+            continue
         if s.dir == "asc":
             if inn["start"] != ("row_ptr", "i", 0) or inn["step"] != 1:
                 problems.append("inner loop must start at row_ptr[i] and ascend (found start %s step %+d)" % (inn["start"], inn["step"]))
@@ -280,10 +334,8 @@ def check_sweeps(ck, f, inst, kind):
             problems.append("accumulated term is %s, expected val[k]*out[col_ind[k]] (reads of the output at the already updated rows)" % inn.get("term"))
         elif inn.get("val") != "val" or inn.get("idx") != "col_ind":
             problems.append("accumulated product uses %s[k] and out[%s[k]]" % (inn.get("val"), inn.get("idx")))
-        if s.diag != "val[k] at the stopping position":
+        if s.diag is not None and s.diag != "val[k] at the stopping position":
             problems.append("the diagonal is not read from val[] at the stopping position of the inner loop")
-        if s.write_count != 1:
-            problems.append("out[i] written %d times per row" % s.write_count)
         ck.ob("E2.sweep-triangular", key, not problems,
               "; ".join(problems) if problems else "segment %s, guard col_ind[k] %s i, product val[k]*out[col_ind[k]], diagonal at the stopping position" % (
                   "row_ptr[i].." if s.dir == "asc" else "..row_ptr[i+1]-1", "<" if s.dir == "asc" else ">"), f.file, s.line,
@@ -312,6 +364,10 @@ def check_ilu_solve(ck, f, inst):
     fam = "l" if f.name == "solve_il" else "u"
     inn = s.inner
     problems = []
+    flat = [inn["start"][0], inn["start"][1]] + [x for g in inn["guard"] for x in (g if isinstance(g, tuple) else (g,))]
+    if any(x is None for x in flat):
+        ck.incomplete("E2.ilu-solve", "%s: inner loop bounds %s / %s are not expressed through the factor's row pointer array" % (inst, inn["start"], inn["guard"]))
+        return
     want_dir = "asc" if fam == "l" else "desc"
     if s.dir != want_dir:
         problems.append("%s must run %s (rows referenced by %s are computed %s)" % (f.name, "top-down" if fam == "l" else "bottom-up", "L" if fam == "l" else "U", "before" if fam == "l" else "after"))
@@ -343,8 +399,22 @@ def call_sequence_rule(ck, rule, inst, f, names, what):
         if n and n.get("k") == "MCall" and n.get("n") in names:
             ids.setdefault(n["n"], []).append(e)
     missing = [n for n in names if n not in ids]
+    known = set(names) | {"set_struct", "factorize_symbolic", "alloc_data", "copy_data", "factorize_numeric_il_du", "solve_il", "solve_du", "clear",
+                          "get_nnze", "bytes", "elements", "size", "rows", "columns", "filter_cor", "elapsed", "add_flops", "add_time_precon", "name"}
+    opaque = []
+    for e in stmts_of(view):
+        n = view.byid.get(e)
+        if n and n.get("k") == "MCall" and n.get("n") not in known:
+            o = n.get("obj")
+            if o is None or strip(o).get("k") == "This" or pcsym.this_field(view.value(o)) in ("_ilu",):
+                opaque.append("%s() (line %s)" % (n.get("n"), n.get("l")))
+    emptiness = [render(x)[:60] for x in walk(f.body) if x.get("k") == "If" and any(
+        y.get("k") == "MCall" and y.get("n") in ("size", "rows", "columns", "used_elements", "empty") for y in walk(x.get("c") or {}))]
     if missing:
-        ck.ob(rule, inst, False, "%s: call of %s missing" % (what, ", ".join(missing)), f.file, f.line)
+        if opaque:
+            ck.incomplete(rule, "%s: %s: no call of %s, but the function calls %s, which is not modelled" % (inst, what, ", ".join(missing), opaque[0]))
+        else:
+            ck.ob(rule, inst, False, "%s: call of %s missing" % (what, ", ".join(missing)), f.file, f.line)
         return
     problems = []
     _, esc = view.flow_from(None, stop=set(ids[names[0]]))
@@ -362,6 +432,9 @@ def call_sequence_rule(ck, rule, inst, f, names, what):
             after, _ = view.flow_from(e)
             if any(x in after for x in ids[a]):
                 problems.append("%s runs again after %s" % (a, b))
+    if problems and all("normal exit" in p for p in problems) and emptiness:
+        ck.incomplete(rule, "%s: %s; the function has an early-out on an empty operand (%s) whose harmlessness is not decided" % (inst, "; ".join(sorted(set(problems))), emptiness[0]))
+        return
     ck.ob(rule, inst, not problems, "; ".join(sorted(set(problems))) if problems else "%s: %s on every path" % (what, " -> ".join(names)), f.file, f.line)
 
 
@@ -400,6 +473,20 @@ def check_omega_scale(ck, f, inst, kind):
             if esc:
                 bad = "a normal exit is reachable that skips the scaling"
     want = W * (2 - W) if kind == "ssor" else sympy.Integer(1)
+    # any other modification of the output after the sweeps (axpy, component_product, unmodelled callee) may carry the factor
+    after, _ = view.flow_from(sweep[0])
+    for e in after:
+        n = view.byid.get(e)
+        if n is None or e in where or n.get("n") in ("filter_cor", "size", "template size"):
+            continue
+        for r in [x for x in walk(n) if x.get("k") == "Ref" and x.get("d") == out_d]:
+            par = view.parent.get(r["i"])
+            if par is not None and par.get("i") == e and use_kind(view, r, out_d, f.params[1]["d"]) not in ("const", "filter"):
+                ck.incomplete("E6.omega-scale", "%s: the output is modified after the sweeps by %s, which is not a scale() of the output" % (inst, render(n)[:70]))
+                return
+    if bad is not None and "does not scale the output itself" in bad:
+        ck.incomplete("E6.omega-scale", "%s: %s" % (inst, bad))
+        return
     ok = bad is None and sympy.expand(factor - want) == 0
     ck.ob("E6.omega-scale", inst, ok,
           bad or "result of the sweeps is scaled by %s; %s requires %s" % (sympy.factor(factor), kind.upper(), "omega*(2-omega)" if kind == "ssor" else "no further scaling (omega is inside the sweep)"),
@@ -423,16 +510,14 @@ def check_operator_form(ck, fns, inst, kind):
         diag_fields.add("_diag")
     try:
         if kind in ("jacobi", "polynomial"):
-            if "init_numeric" not in fns:
-                ck.ob(rule, inst, False, "no init_numeric(): the inverse diagonal is never computed from the matrix values", ap.file, ap.line)
-                return
-            ini = fns["init_numeric"]
-            iv = VecEval(FnView(ini), {}, diag_fields=diag_fields)
-            iv.run(ini.body.get("s", []))
-            for k, val in iv.env.items():
-                env[k] = val
-            diag_fields |= iv.diag_fields
-        ev = VecEval(view, env, diag_fields=diag_fields)
+            if "init_numeric" in fns:
+                ini = fns["init_numeric"]
+                iv = VecEval(FnView(ini), {}, diag_fields=diag_fields, methods=fns)
+                iv.run(ini.body.get("s", []))
+                for k, val in iv.env.items():
+                    env[k] = val
+                diag_fields |= iv.diag_fields
+        ev = VecEval(view, env, diag_fields=diag_fields, methods=fns)
         loopinfo = {}
 
         def loop_hook(ve, loop):
@@ -441,7 +526,7 @@ def check_operator_form(ck, fns, inst, kind):
             c = pcmodel.counting_loop(view, loop)
             l, op, r = pcmodel.cond_on(view, c["cond"], c["d"])
             init = view.value(c["init"])
-            bound = strip(r)
+            bound = view.value(r)
             if init.get("k") != "Int" or pcsym.this_field(bound) != "_m" or c["step"] != 1:
                 raise NotStraight("loop %s is not a count over _m" % render(loop))
             start = int(init["v"])
@@ -478,7 +563,7 @@ def check_operator_form(ck, fns, inst, kind):
         Minv = W * Dinv
         pre = loopinfo.get("pre")
         if not pre:
-            ck.ob(rule, inst, False, "no Neumann iteration loop found", ap.file, ap.line)
+            ck.incomplete(rule, "%s: no iteration loop over _m found in apply() (unrolled / recursive forms are not modelled)" % inst)
             return
         X = loopinfo["X"]
         x0 = sympy.expand(pre.get(("p", outp), 0))
@@ -517,9 +602,19 @@ def check_numeric(ck, S, fns, inst, kind):
             numeric |= r["fresh"]
     if sym is not None:
         va = sym["value_access"]
-        ck.ob("E8.symbolic-structure-only", inst, not va,
+        # harmless if everything init_symbolic computes from values is freshly recomputed on every path of init_numeric
+        redundant = False
+        if va and num is not None and sym["fresh"]:
+            vn = S.view(fns["init_numeric"])
+            redundant = True
+            for m in sym["fresh"]:
+                stop = {e for e in stmts_of(vn) if e in set(num["stmts"].get(m, []))}
+                if not stop or vn.flow_from(None, stop=stop)[1]:
+                    redundant = False
+        ck.ob("E8.symbolic-structure-only", inst, not va or redundant,
               "init_symbolic() reads the matrix structure only" if not va else
-              "init_symbolic() reads matrix values: %s" % ", ".join("%s (line %s)" % (t, l) for l, t in va[:3]),
+              ("init_symbolic() also reads matrix values (%s), but init_numeric() recomputes all of it" if redundant else "init_symbolic() reads matrix values that init_numeric() does not recompute: %s") %
+              ", ".join("%s (line %s)" % (t, l) for l, t in va[:3]),
               fns["init_symbolic"].file, fns["init_symbolic"].line)
     used = sorted(m for m in numeric if m in ap["reads"])
     if not used:
@@ -541,6 +636,9 @@ def check_numeric(ck, S, fns, inst, kind):
         stop = {e for e in stmts_of(view) if e in stm}
         _, esc = view.flow_from(None, stop=stop)
         ok = bool(stop) and not esc
+        if not ok and m in num.get("opaque", set()):
+            ck.incomplete("E8.numeric-refresh", "%s: %s is handed to a callee whose body is not available in init_numeric(); whether it is recomputed there is not decided" % (key, sh(m)))
+            continue
         ck.ob("E8.numeric-refresh", key, ok,
               "%s (read by apply()) is rewritten from the current matrix values on every path through init_numeric()" % sh(m) if ok else
               "%s is read by apply() and computed from matrix values%s, but init_numeric() %s" % (
@@ -625,7 +723,7 @@ def check_copy_covers(ck, f, inst):
     fill-in positions that are not in A) and _data_d is assigned on every path of the row loop"""
     rule = "E8.refresh-covers"
     view = FnView(f)
-    rows = [s_ for s_ in f.body.get("s", []) if s_.get("k") == "For"]
+    rows = [s_ for s_ in f.body.get("s", []) if s_.get("k") in ("For", "While")]
     try:
         found = {}
         partial = {}
@@ -636,7 +734,7 @@ def check_copy_covers(ck, f, inst):
                          and op == "<" and pcsym.this_field(view.value(r)) == "_n")
             i_d = o["d"]
             for st in o["stmts"]:
-                if st.get("k") == "For":
+                if st.get("k") in ("For", "While"):
                     c = pcmodel.counting_loop(view, st)
                     el0 = element(view, c["init"]) if c["init"] is not None else None
                     l2, op2, r2 = pcmodel.cond_on(view, c["cond"], c["d"])
@@ -664,7 +762,22 @@ def check_copy_covers(ck, f, inst):
     except NotRecognised as ex:
         ck.incomplete(rule, "%s: %s" % (inst, ex))
         return
+    # fill / assign / memset idioms, or the array handed to another function, are not modelled
+    opaque = {}
+    for n in walk(f.body):
+        if n.get("k") in ("MCall", "Call"):
+            nm = n.get("n") or (n.get("callee") or "").rsplit("::", 1)[-1]
+            operands = ([n.get("obj")] if n.get("obj") is not None else []) + list(n.get("a", []))
+            for a in operands:
+                fa = None
+                for x in walk(a):
+                    fa = fa or (member_array(view, x) if x.get("k") in ("Member", "Ref") else None)
+                if fa in ("_data_l", "_data_u", "_data_d") and nm not in ("data", "operator[]", "size", "empty") and not (n.get("k") == "MCall" and n.get("cconst") and n.get("obj") is a):
+                    opaque.setdefault(fa, "%s (line %s)" % (nm, n.get("l")))
     for fld, what in (("_data_l", "every position of row i of L"), ("_data_d", "the diagonal of every row"), ("_data_u", "every position of row i of U")):
+        if fld not in found and fld in opaque:
+            ck.incomplete(rule, "%s/%s: no covering element-wise store found, but the array is used by %s, which is not modelled" % (inst, fld, opaque[fld]))
+            continue
         ok = fld in found and fld not in partial
         if ok:
             detail = "%s is assigned on every path (pattern positions absent from A are zeroed, not kept)" % what
@@ -779,8 +892,8 @@ def check_factor_form(ck, f, inst, blocked):
                 ds = [x for x in val.free_symbols if fam(x) == "d" and x != T]
                 kind = "scale-%s" % tf
                 if tf != "l" or len(ds) != 1:
-                    problems.append("update %s <- %s is not one of: L_ij <- L_ij D_jj^-1, X <- X - L_ij U_jk, D_ii <- D_ii^-1" % (T, val))
-                    exp = None
+                    ck.incomplete(rule, "%s: update %s <- %s (line %s) is not one of the modelled forms L_ij <- L_ij D_jj^-1, X <- X - L_ij U_jk, D_ii <- D_ii^-1" % (inst, T, val, n.get("l")))
+                    continue
                 else:
                     exp = sympy.expand(T * ds[0])
                     if sympy.expand(val - exp) != 0:
@@ -806,19 +919,33 @@ def check_wrapper(ck, fns, inst):
         for e in stmts_of(view):
             n = view.byid.get(e)
             if n and n.get("k") == "MCall" and n.get("obj") is not None:
-                o = strip(n["obj"])
-                if o.get("k") == "OpCall" and o.get("op") == "->" and pcsym.this_field(o["a"][0]) == "_impl":
+                o = view.value(n["obj"])
+                if o.get("k") == "OpCall" and o.get("op") in ("->", "*") and pcsym.this_field(view.value(o["a"][0])) == "_impl":
+                    calls.append((e, n))
+                elif o.get("k") == "MCall" and o.get("n") == "get" and pcsym.this_field(view.value(o.get("obj") or {})) == "_impl":
                     calls.append((e, n))
         if not calls:
-            ck.ob(rule, "%s::%s" % (inst, name), False, "does not forward to the implementation object", f.file, f.line)
+            mentions = any(pcsym.this_field(x) == "_impl" for x in walk(f.body) if x.get("k") == "Member")
+            others = [n2.get("n") for n2 in walk(f.body) if n2.get("k") == "MCall" and (n2.get("obj") is None or strip(n2.get("obj")).get("k") == "This")]
+            if mentions or others:
+                ck.incomplete(rule, "%s::%s: no direct call on _impl found; the implementation object is used through a construct that is not modelled (%s)" % (
+                    inst, name, "member call " + others[0] if others else "_impl referenced otherwise"))
+            else:
+                ck.ob(rule, "%s::%s" % (inst, name), False, "does not forward to the implementation object (it is never used)", f.file, f.line)
             continue
         problems = []
         for e, n in calls:
             if n.get("n") != name:
                 problems.append("forwards to _impl->%s" % n.get("n"))
-            args = [strip(a) for a in n.get("a", [])]
+            args = [view.value(a) for a in n.get("a", [])]
+            if any(a.get("k") != "Ref" for a in args):
+                ck.incomplete(rule, "%s::%s: forwarded arguments %s are not plain parameters" % (inst, name, ", ".join(render(a) for a in args)))
+                problems = None
+                break
             if [a.get("d") for a in args] != [p["d"] for p in f.params]:
                 problems.append("arguments %s are not the parameters in order" % ", ".join(render(a) for a in args))
+        if problems is None:
+            continue
         _, esc = view.flow_from(None, stop={e for e, n in calls})
         if esc:
             problems.append("a normal exit skips the forwarding call")
